@@ -9,6 +9,16 @@
 //!
 //! Every scenario runs its own `System` on a fresh thread; every blocking wait has a watchdog so a
 //! hang is an observation (`hang`), never a hung check.
+//!
+//! Scenario dimensions beyond the obvious ones (they come from the property statements, which
+//! quantify over *every* arbiter, *every* queue and *whatever* the process has done before):
+//! * C09 `align K`: the process-wide counters are shifted beforehand (throw-away Systems / arbiters)
+//!   so that arbiter K's process-wide number equals its system's id — the only way two ids in play
+//!   can coincide; kind `done` = an arbiter stopped *and joined* before anything else happens.
+//! * C10 `sysarb`: the system arbiter (`System::arbiter()`) as a command target; `gate` tasks hold
+//!   an arbiter's thread so that a backlog builds up behind them and is found in one go; `spawnn`
+//!   sends hundreds of commands (tokio's co-operative budget splits such a batch); `host N kept|dropped`:
+//!   the OS thread has hosted N Systems before (thread-locals must be overwritten, not kept).
 use std::{
     collections::HashMap,
     future::Future,
@@ -16,7 +26,7 @@ use std::{
     pin::Pin,
     sync::{
         atomic::{AtomicBool, AtomicUsize, Ordering},
-        mpsc, Arc, Mutex,
+        mpsc, Arc, Mutex, RwLock,
     },
     task::{Context, Poll},
     thread,
@@ -28,6 +38,11 @@ use vh::*;
 
 const WATCHDOG: Duration = Duration::from_secs(5);
 
+/// System ids and arbiter numbers are process-wide counters.  Whoever creates Systems / arbiters
+/// holds this lock shared; a scenario that *aligns* the counters holds it exclusively while it
+/// measures, shifts and creates.
+static ID_LOCK: RwLock<()> = RwLock::new(());
+
 // -------------------------------------------------------------------------------------------------
 // scenario description (shared grammar with lean/Driver/Rt.lean — keep the validity rules identical)
 // -------------------------------------------------------------------------------------------------
@@ -38,6 +53,8 @@ enum Kind {
     Dropped,
     Running,
     Busy,
+    /// stopped and joined right after creation: has "already stopped" in the strongest sense
+    Done,
 }
 
 #[derive(Clone, PartialEq, Debug)]
@@ -72,13 +89,17 @@ enum TaskKind {
     Panic,
     FnPanic,
     Block,
+    /// a function that holds the arbiter's thread until the director `open`s it (3 s at most)
+    Gate,
 }
 
 #[derive(Clone, Debug)]
 enum Cmd10 {
-    Spawn { arb: usize, via: Via, kind: TaskKind, task: usize },
+    /// `burst`: not the first command of a `spawnn` (no pause in front of it)
+    Spawn { arb: usize, via: Via, kind: TaskKind, task: usize, burst: bool },
     Stop { arb: usize, via: Via },
     Wait { task: usize },
+    Open { task: usize },
 }
 
 #[derive(Default)]
@@ -87,12 +108,25 @@ struct Scenario {
     done: bool,
     kinds: Vec<Kind>,
     stops: Vec<StopSpec>,
+    /// c09: arbiter whose process-wide number is made equal to the system's id
+    align: Option<usize>,
+    /// c10: number of command targets (arbiters incl. the system arbiter)
     narb: usize,
+    /// c10: index of the target that is the system arbiter
+    sys_idx: Option<usize>,
+    /// c10: the OS thread hosted this many Systems before (kept alive / dropped)
+    host: Option<(usize, bool)>,
     cmds: Vec<Cmd10>,
+    nlines: usize,
     ntask: usize,
     task_arb: Vec<usize>,
+    /// c10: per task: None = not a gate, Some(opened)
+    task_gate: Vec<Option<bool>>,
     stopped: Vec<bool>, // c10: a stop command exists for this arbiter
 }
+
+const MAX_LINES: usize = 24;
+const MAX_TASKS: usize = 400;
 
 fn parse_i32(s: &str) -> Option<i32> {
     // same grammar as the Lean driver: optional '-', then 1..6 digits
@@ -164,6 +198,52 @@ fn join_watchdog(arb: Arbiter, d: Duration) -> &'static str {
     }
 }
 
+fn arb_number_of(name: &str) -> Option<usize> {
+    name.rsplit("arbiter:").next()?.parse().ok()
+}
+
+/// process-wide number of a live arbiter (read from its thread's name)
+fn arb_number(a: &Arbiter) -> Option<usize> {
+    let (tx, rx) = mpsc::channel();
+    a.spawn_fn(move || {
+        let _ = tx.send(thread::current().name().map(|s| s.to_string()));
+    });
+    arb_number_of(&rx.recv_timeout(WATCHDOG).ok()??)
+}
+
+/// Shift the process-wide counters (caller holds `ID_LOCK` exclusively) so that, if the caller now
+/// creates a System and then arbiters, the (k+1)-th of them gets a number equal to the System's id.
+/// Done the way a program would get there: Systems and arbiters created — and gone — earlier on.
+fn align_counters(k: usize) -> bool {
+    let r0 = System::new();
+    let s0 = System::current().id();
+    let a = Arbiter::new();
+    let n0 = arb_number(&a);
+    a.stop();
+    let _ = join_watchdog(a, WATCHDOG);
+    let Some(n0) = n0 else { return false };
+    let (next_sys, next_arb) = (s0 + 1, n0 + 1);
+    let target = next_arb + k;
+    if next_sys.abs_diff(target) > 20_000 {
+        return false;
+    }
+    if next_sys <= target {
+        // Systems that never ran
+        for _ in next_sys..target {
+            drop(System::new());
+        }
+    } else {
+        // arbiters that came and went (under the throw-away System, which is still current)
+        for _ in 0..(next_sys - target) {
+            let a = Arbiter::new();
+            a.stop();
+            let _ = join_watchdog(a, WATCHDOG);
+        }
+    }
+    drop(r0);
+    true
+}
+
 struct YieldN(usize);
 impl Future for YieldN {
     type Output = ();
@@ -186,6 +266,10 @@ struct ArbSlot {
     arb: Option<Arbiter>,
     handle: ArbiterHandle,
     ended: Arc<AtomicBool>,
+    /// `done` arbiters: result of the join made right after creation
+    joined: Option<&'static str>,
+    /// thread name seen by the guard task (None: the guard never started)
+    name: Arc<Mutex<Option<String>>>,
 }
 
 struct Out {
@@ -226,7 +310,12 @@ fn exec_c09(sc: &Scenario, mode_run: bool, jseed: u64) -> Out {
     }
     let mut rng_sys = Rng::new(jseed ^ 0x5151);
     let kinds2 = kinds.clone();
+    let align = sc.align;
     thread::spawn(move || {
+        // creation phase under the id lock (exclusive when the counters are being aligned)
+        let excl = align.map(|_| ID_LOCK.write().unwrap_or_else(|e| e.into_inner()));
+        let shared = if excl.is_none() { Some(ID_LOCK.read().unwrap_or_else(|e| e.into_inner())) } else { None };
+        let shifted = align.map(align_counters).unwrap_or(false);
         let runner = System::new();
         let sys = System::current();
         let mut slots = vec![];
@@ -249,15 +338,25 @@ fn exec_c09(sc: &Scenario, mode_run: bool, jseed: u64) -> Out {
             let handle = arb.handle();
             let ended = Arc::new(AtomicBool::new(false));
             let g = Guard(ended.clone());
+            let name = Arc::new(Mutex::new(None));
+            let name2 = name.clone();
             handle.spawn(async move {
                 let _g = g;
+                *name2.lock().unwrap() = thread::current().name().map(|s| s.to_string());
                 std::future::pending::<()>().await
             });
+            let mut joined = None;
             let arb = match k {
                 Kind::Early => {
                     jitter(&mut rng_sys);
                     early.push(arb.stop());
                     Some(arb)
+                }
+                Kind::Done => {
+                    jitter(&mut rng_sys);
+                    early.push(arb.stop());
+                    joined = Some(join_watchdog(arb, WATCHDOG));
+                    None
                 }
                 Kind::Dropped => {
                     drop(arb);
@@ -281,9 +380,10 @@ fn exec_c09(sc: &Scenario, mode_run: bool, jseed: u64) -> Out {
                     Some(arb)
                 }
             };
-            slots.push(ArbSlot { arb, handle, ended });
+            slots.push(ArbSlot { arb, handle, ended, joined, name });
         }
-        let _ = setup_tx.send((sys.clone(), slots, early));
+        drop((shared, excl));
+        let _ = setup_tx.send((sys.clone(), slots, early, shifted));
         for (i, s, gate, ack) in sys_issuers {
             if i == 0 && immediate_done {
                 continue;
@@ -319,7 +419,7 @@ fn exec_c09(sc: &Scenario, mode_run: bool, jseed: u64) -> Out {
     });
 
     let mut t3 = vec![];
-    let (sys, mut slots, early) = match setup_rx.recv_timeout(WATCHDOG) {
+    let (sys, mut slots, early, shifted) = match setup_rx.recv_timeout(4 * WATCHDOG) {
         Ok(x) => x,
         Err(_) => {
             return Out {
@@ -390,7 +490,10 @@ fn exec_c09(sc: &Scenario, mode_run: bool, jseed: u64) -> Out {
     let mut hung = false;
     for s in slots.iter_mut() {
         match s.arb.take() {
-            None => joins.push("-"),
+            None => match s.joined {
+                Some(r) => joins.push(r),
+                None => joins.push("-"),
+            },
             Some(a) => {
                 let r = join_watchdog(a, if hung { Duration::from_millis(500) } else { WATCHDOG });
                 hung |= r == "hang";
@@ -436,8 +539,16 @@ fn exec_c09(sc: &Scenario, mode_run: bool, jseed: u64) -> Out {
     }
 
     let b = |x: bool| if x { "1" } else { "0" };
+    // was the requested coincidence of ids reached?  (1 / 0 / ? = the arbiter never ran a task)
+    let aligned = match sc.align {
+        None => "-".to_string(),
+        Some(k) => match slots[k].name.lock().unwrap().as_deref().and_then(arb_number_of) {
+            Some(nr) => format!("{}", b(shifted && nr == sys.id())),
+            None => "?".to_string(),
+        },
+    };
     let log = format!(
-        "code={} res={} joins={} ended={} early={} post={}",
+        "code={} res={} joins={} ended={} early={} post={} aligned={aligned}",
         code_s,
         if mode_run { res_s.as_str() } else { "-" },
         if joins.is_empty() { "-".to_string() } else { joins.join(",") },
@@ -482,6 +593,8 @@ struct TaskLog {
     counts: Mutex<HashMap<usize, usize>>,
     /// drop flags of the `pend` futures: all of them must have been dropped when `join` returns
     guards: Mutex<Vec<(usize, Arc<AtomicBool>)>>,
+    /// the senders that open the `gate` tasks
+    gates: Mutex<HashMap<usize, mpsc::Sender<()>>>,
 }
 
 impl TaskLog {
@@ -501,6 +614,16 @@ impl TaskLog {
     }
     fn started(&self, task: usize) -> bool {
         self.counts.lock().unwrap().get(&task).copied().unwrap_or(0) > 0
+    }
+    fn open(&self, task: usize) {
+        if let Some(tx) = self.gates.lock().unwrap().remove(&task) {
+            let _ = tx.send(());
+        }
+    }
+    fn open_all(&self) {
+        for (_, tx) in self.gates.lock().unwrap().drain() {
+            let _ = tx.send(());
+        }
     }
 }
 
@@ -555,6 +678,16 @@ fn do_spawn(h: &Sender10, kind: TaskKind, task: usize, log: Arc<TaskLog>) -> boo
             log.start(task);
             thread::sleep(Duration::from_micros(1500));
         }),
+        // holds the arbiter's thread until the director opens the gate: everything sent meanwhile
+        // is found by the arbiter's loop in one go
+        TaskKind::Gate => {
+            let (tx, rx) = mpsc::channel::<()>();
+            log.gates.lock().unwrap().insert(task, tx);
+            spf!(move || {
+                log.start(task);
+                let _ = rx.recv_timeout(Duration::from_secs(3));
+            })
+        }
     }
 }
 
@@ -576,31 +709,73 @@ struct Sys10 {
     res_rx: mpsc::Receiver<Result<i32, String>>,
 }
 
-fn start_system(narb: usize) -> Option<Sys10> {
+/// A System on a fresh OS thread, with `narb` arbiters.  `host = (n, kept)`: before that, the same
+/// thread hosts `n` other Systems one after the other, each of which does a little work (a local task;
+/// every other one also an arbiter that comes and goes); their runners are kept alive until the
+/// thread ends, or dropped at once.
+fn start_system(narb: usize, host: Option<(usize, bool)>) -> Option<Sys10> {
     let (setup_tx, setup_rx) = mpsc::channel();
     let (res_tx, res_rx) = mpsc::channel();
     thread::spawn(move || {
+        let mut kept = vec![];
+        let lock = ID_LOCK.read().unwrap_or_else(|e| e.into_inner());
+        if let Some((n, keep)) = host {
+            for i in 0..n {
+                let r = System::new();
+                let _ = r.block_on(async move { actix_rt::spawn(async move { i }).await });
+                if i % 2 == 1 {
+                    let a = Arbiter::new();
+                    a.stop();
+                    let _ = join_watchdog(a, WATCHDOG);
+                }
+                if keep {
+                    kept.push(r);
+                }
+            }
+        }
         let runner = System::new();
         let sys = System::current();
         let arbs: Vec<Arbiter> = (0..narb).map(|_| Arbiter::new()).collect();
+        drop(lock);
         let _ = setup_tx.send((sys, thread::current().id(), arbs));
         let r = runner.run_with_code().map_err(|e| e.to_string());
         let _ = res_tx.send(r);
+        drop(kept);
     });
-    let (sys, sys_thread, arbs) = setup_rx.recv_timeout(WATCHDOG).ok()?;
+    let (sys, sys_thread, arbs) = setup_rx.recv_timeout(4 * WATCHDOG).ok()?;
     Some(Sys10 { sys, sys_thread, arbs, res_rx })
 }
 
+fn short<T: std::fmt::Debug>(v: &[T]) -> String {
+    if v.len() <= 16 {
+        format!("{v:?}")
+    } else {
+        format!("{:?}… ({} in all)", &v[..16], v.len())
+    }
+}
+
 fn exec_c10(sc: &Scenario, jseed: u64) -> Out {
-    let narb = sc.narb;
+    let narb = sc.narb; // targets
+    let is_sys = |a: usize| sc.sys_idx == Some(a);
+    let nreal = narb - sc.sys_idx.map_or(0, |_| 1);
     let mut rng = Rng::new(jseed);
     let mut t3: Vec<(String, String)> = vec![];
-    let Some(Sys10 { sys, sys_thread, arbs, res_rx }) = start_system(narb) else {
+    let Some(Sys10 { sys, sys_thread, arbs, res_rx }) = start_system(nreal, sc.host) else {
         return Out { log: "setup=hang".into(), verdict: "setup=hang".into(), t3: vec![("C10".into(), "setup hang".into())] };
     };
     let sys_id = sys.id();
-    let log = Arc::new(TaskLog { seq: AtomicUsize::new(0), recs: Mutex::new(vec![]), counts: Mutex::new(HashMap::new()), guards: Mutex::new(vec![]) });
-    let handles: Vec<ArbiterHandle> = arbs.iter().map(|a| a.handle()).collect();
+    let log = Arc::new(TaskLog {
+        seq: AtomicUsize::new(0),
+        recs: Mutex::new(vec![]),
+        counts: Mutex::new(HashMap::new()),
+        guards: Mutex::new(vec![]),
+        gates: Mutex::new(HashMap::new()),
+    });
+    // per target: the owner object (None for the system arbiter) and a handle
+    let mut real = arbs.into_iter();
+    let mut owners: Vec<Option<Arbiter>> = (0..narb).map(|a| if is_sys(a) { None } else { real.next() }).collect();
+    let handles: Vec<ArbiterHandle> =
+        owners.iter().map(|o| match o { Some(a) => a.handle(), None => sys.arbiter().clone() }).collect();
 
     // helper threads with cloned handles
     let mut helper_tx = vec![];
@@ -636,13 +811,17 @@ fn exec_c10(sc: &Scenario, jseed: u64) -> Out {
     let mut waits: Vec<(usize, bool)> = vec![];
     let profile = jseed % 3; // 0: burst (no pauses between commands), 1: pauses, 2: a pause now and then
     for c in &sc.cmds {
-        if profile == 1 || (profile == 2 && rng.chance(1, 4)) {
+        let in_burst = matches!(c, Cmd10::Spawn { burst: true, .. });
+        if !in_burst && (profile == 1 || (profile == 2 && rng.chance(1, 4))) {
             jitter(&mut rng);
         }
         match c {
-            Cmd10::Spawn { arb, via, kind, task } => {
+            Cmd10::Spawn { arb, via, kind, task, .. } => {
                 let r = match via {
-                    Via::Own => do_spawn(&Sender10::Arb(&arbs[*arb]), *kind, *task, log.clone()),
+                    Via::Own => match &owners[*arb] {
+                        Some(a) => do_spawn(&Sender10::Arb(a), *kind, *task, log.clone()),
+                        None => do_spawn(&Sender10::Handle(&handles[*arb]), *kind, *task, log.clone()),
+                    },
                     Via::H1 | Via::H2 => {
                         let i = if *via == Via::H1 { 0 } else { 1 };
                         let _ = helper_tx[i].send(HelperMsg::Spawn(*arb, *kind, *task));
@@ -653,7 +832,10 @@ fn exec_c10(sc: &Scenario, jseed: u64) -> Out {
             }
             Cmd10::Stop { arb, via } => {
                 let r = match via {
-                    Via::Own => arbs[*arb].stop(),
+                    Via::Own => match &owners[*arb] {
+                        Some(a) => a.stop(),
+                        None => handles[*arb].stop(),
+                    },
                     Via::H1 | Via::H2 => {
                         let i = if *via == Via::H1 { 0 } else { 1 };
                         let _ = helper_tx[i].send(HelperMsg::Stop(*arb));
@@ -671,8 +853,10 @@ fn exec_c10(sc: &Scenario, jseed: u64) -> Out {
                 }
                 waits.push((*task, ok));
             }
+            Cmd10::Open { task } => log.open(*task),
         }
     }
+    log.open_all();
     for tx in &helper_tx {
         let _ = tx.send(HelperMsg::Quit);
     }
@@ -686,7 +870,12 @@ fn exec_c10(sc: &Scenario, jseed: u64) -> Out {
     let mut seq_at_join = vec![];
     let mut hung = false;
     let mut undropped = vec![];
-    for (ai, a) in arbs.into_iter().enumerate() {
+    for ai in 0..narb {
+        let Some(a) = owners[ai].take() else {
+            joins.push("-");
+            seq_at_join.push(usize::MAX);
+            continue;
+        };
         let r = join_watchdog(a, if hung { Duration::from_millis(500) } else { WATCHDOG });
         hung |= r == "hang";
         joins.push(r);
@@ -699,13 +888,31 @@ fn exec_c10(sc: &Scenario, jseed: u64) -> Out {
             }
         }
     }
+    // the system arbiter cannot be joined; its loop has ended when its channel refuses commands
+    let mut sysgone = None;
+    if let Some(si) = sc.sys_idx {
+        let t0 = Instant::now();
+        let mut gone = !handles[si].stop();
+        while !gone && t0.elapsed() < WATCHDOG {
+            thread::sleep(Duration::from_micros(200));
+            gone = !handles[si].stop();
+        }
+        sysgone = Some(gone);
+    }
     // once the arbiter is gone, spawn reports false
     let post: Vec<bool> = handles.iter().map(|h| h.spawn_fn(|| {})).collect();
     let post_stop: Vec<bool> = handles.iter().map(|h| h.stop()).collect();
     thread::sleep(Duration::from_micros(300));
     sys.stop();
     let sys_res = res_rx.recv_timeout(WATCHDOG);
-    let final_seq = log.seq.load(Ordering::SeqCst);
+    // the system's runtime is gone: the futures its LocalSet owned have been dropped
+    if let (Some(si), Ok(_)) = (sc.sys_idx, &sys_res) {
+        for (t, f) in log.guards.lock().unwrap().iter() {
+            if sc.task_arb[*t] == si && log.started(*t) && !f.load(Ordering::SeqCst) {
+                undropped.push(*t);
+            }
+        }
+    }
 
     // ---- canonical log ----
     let recs = log.recs.lock().unwrap().clone();
@@ -730,6 +937,13 @@ fn exec_c10(sc: &Scenario, jseed: u64) -> Out {
                 }
                 _ => {}
             }
+            if is_sys(a) {
+                if r.thread != sys_thread {
+                    thr_ok = false;
+                    thr_why = format!("task {} sent to the system arbiter did not run on the system's thread", r.task);
+                }
+                continue;
+            }
             if !r.name.starts_with(&format!("actix-rt|system:{sys_id}|arbiter:")) {
                 thr_ok = false;
                 thr_why = format!("task {} ran on thread named {:?}", r.task, r.name);
@@ -751,39 +965,41 @@ fn exec_c10(sc: &Scenario, jseed: u64) -> Out {
     let cur_ok = recs.iter().all(|r| r.has_arb);
     let sys_ok = recs.iter().all(|r| r.sys_id == Some(sys_id));
     let once_ok = counts.values().all(|c| *c <= 1);
-    let late = !undropped.is_empty()
-        || final_seq != seq_at_join.last().copied().unwrap_or(final_seq)
-        || by_arb.iter().enumerate().any(|(a, rs)| rs.iter().any(|r| r.seq >= seq_at_join[a]));
+    let late = !undropped.is_empty() || by_arb.iter().enumerate().any(|(a, rs)| rs.iter().any(|r| r.seq >= seq_at_join[a]));
 
     // ---- T3: the property statement on the observation ----
     for (a, rs) in by_arb.iter().enumerate() {
         // send order of this arbiter's executes, and which were sent before the first stop
         let mut order = vec![];
-        let mut pre = vec![];
+        let mut npre = 0;
         let mut seen_stop = false;
         for c in &sc.cmds {
             match c {
                 Cmd10::Spawn { arb, task, .. } if *arb == a => {
                     order.push(*task);
                     if !seen_stop {
-                        pre.push(*task);
+                        npre += 1;
                     }
                 }
                 Cmd10::Stop { arb, .. } if *arb == a => seen_stop = true,
                 _ => {}
             }
         }
+        let pre = &order[..npre];
         let started: Vec<usize> = rs.iter().map(|r| r.task).collect();
+        let who = if is_sys(a) { format!("arbiter {a} (the system arbiter)") } else { format!("arbiter {a}") };
         // FIFO: started is a subsequence of the send order — in fact a prefix of it
         if started.len() > order.len() || started[..] != order[..started.len()] {
-            t3.push(("C10".into(), format!("arbiter {a}: start order {started:?} is not a prefix of the send order {order:?}")));
+            t3.push(("C10".into(), format!("{who}: start order {} is not a prefix of the send order {}", short(&started), short(&order))));
         }
-        if let Some(t) = started.iter().find(|t| !pre.contains(t)) {
-            t3.push(("C10".into(), format!("arbiter {a}: task {t} was sent after stop() and started")));
+        let after: Vec<usize> = started.iter().copied().filter(|t| !pre.contains(t)).collect();
+        if !after.is_empty() {
+            t3.push(("C10".into(), format!("{who}: task(s) {} were sent after stop() and started", short(&after))));
         }
     }
     if !once_ok {
-        t3.push(("C10".into(), format!("a task started more than once: {counts:?}")));
+        let twice: Vec<usize> = counts.iter().filter(|(_, c)| **c > 1).map(|(t, _)| *t).collect();
+        t3.push(("C10".into(), format!("a task started more than once: {}", short(&twice))));
     }
     if !thr_ok {
         t3.push(("C10".into(), format!("thread identity: {thr_why}")));
@@ -800,9 +1016,12 @@ fn exec_c10(sc: &Scenario, jseed: u64) -> Out {
         }
     }
     for (a, j) in joins.iter().enumerate() {
-        if *j != "ok" {
+        if *j != "ok" && *j != "-" {
             t3.push(("C10".into(), format!("join of arbiter {a}: {j}")));
         }
+    }
+    if sysgone == Some(false) {
+        t3.push(("C10".into(), format!("the system arbiter still accepted commands {WATCHDOG:?} after stop()")));
     }
     if late {
         t3.push(("C10".into(), format!("join() returned before the loop had ended: a task started afterwards or pending futures {undropped:?} were still alive")));
@@ -840,12 +1059,17 @@ fn exec_c10(sc: &Scenario, jseed: u64) -> Out {
     let b = |x: bool| if x { "1" } else { "0" };
     let starts: Vec<String> = sorted.iter().map(|r| format!("a{}:t{}", sc.task_arb[r.task], r.task)).collect();
     let ids = if thr_ok && cur_ok && sys_ok { "ok".to_string() } else { format!("bad(thr={},cur={},sys={})", b(thr_ok), b(cur_ok), b(sys_ok)) };
+    let sysgone_s = match sysgone {
+        None => "-",
+        Some(g) => b(g),
+    };
     let logline = format!(
-        "rets={} starts={} waits={} joins={} post={} ids={} once={} late={}",
+        "rets={} starts={} waits={} joins={} sysgone={} post={} ids={} once={} late={}",
         if rets.is_empty() { "-".into() } else { rets.iter().map(|r| b(*r)).collect::<Vec<_>>().join("") },
         if starts.is_empty() { "-".into() } else { starts.join(",") },
         if waits.is_empty() { "-".into() } else { waits.iter().map(|(t, ok)| format!("t{t}:{}", b(*ok))).collect::<Vec<_>>().join(",") },
         joins.join(","),
+        sysgone_s,
         post.iter().zip(&post_stop).map(|(x, y)| format!("{}{}", b(*x), b(*y))).collect::<Vec<_>>().join(","),
         ids,
         b(once_ok),
@@ -859,7 +1083,8 @@ fn exec_c10(sc: &Scenario, jseed: u64) -> Out {
     }
     v.push(format!("rets={}", if rets.is_empty() { "-".into() } else { rets.iter().map(|r| b(*r)).collect::<Vec<_>>().join("") }));
     v.push(format!("waits={}/{}", waits.iter().filter(|w| w.1).count(), waits.len()));
-    v.push(format!("joins={}/{}", joins.iter().filter(|j| **j == "ok").count(), narb));
+    v.push(format!("joins={}/{}", joins.iter().filter(|j| **j == "ok").count(), nreal));
+    v.push(format!("sysgone={sysgone_s}"));
     v.push(format!("post={}/{}", post.iter().chain(post_stop.iter()).filter(|x| **x).count(), 2 * narb));
     v.push(format!("ids={ids}"));
     v.push(format!("once={}", if once_ok { "ok" } else { "bad" }));
@@ -881,62 +1106,133 @@ fn count_pre(sc: &Scenario, a: usize) -> usize {
 }
 
 /// `ident`: `Arbiter::current()` inside a task is a handle to *that* arbiter (a function sent through
-/// it runs on the same thread), `System::current()` is the arbiter's system, and
-/// `System::current().arbiter()` is the system arbiter (runs on the system thread).
+/// it runs, and on the same thread), `System::current()` is the arbiter's system, and
+/// `System::current().arbiter()` is the system arbiter (runs on the system thread) — for every
+/// `Arbiter::new` arbiter and for the system arbiter itself, also when the system's thread has
+/// hosted other Systems before (`host`).
 fn exec_ident(sc: &Scenario) -> Out {
     let narb = sc.narb;
     let mut t3 = vec![];
-    let Some(Sys10 { sys, sys_thread, arbs, res_rx }) = start_system(narb) else {
+    let Some(Sys10 { sys, sys_thread, arbs, res_rx }) = start_system(narb, sc.host) else {
         return Out { log: String::new(), verdict: "setup=hang".into(), t3: vec![("C10".into(), "setup hang".into())] };
     };
     let sys_id = sys.id();
+    // (arbiter or usize::MAX for the system arbiter, probe, thread, System::current().id(), return of the send that created a follow-up probe)
     type Rec = (usize, &'static str, thread::ThreadId, Option<usize>);
+    const SYS: usize = usize::MAX;
     let (tx, rx) = mpsc::channel::<Rec>();
+    let sent_ok = Arc::new(AtomicBool::new(true));
+    let here = || (thread::current().id(), System::try_current().map(|s| s.id()));
     for (a, arb) in arbs.iter().enumerate() {
         let tx = tx.clone();
+        let sent_ok = sent_ok.clone();
         arb.spawn(async move {
-            let _ = tx.send((a, "parent", thread::current().id(), System::try_current().map(|s| s.id())));
+            let (t, s) = here();
+            let _ = tx.send((a, "parent", t, s));
             let tx2 = tx.clone();
-            Arbiter::current().spawn_fn(move || {
-                let _ = tx2.send((a, "child", thread::current().id(), System::try_current().map(|s| s.id())));
+            let r1 = Arbiter::current().spawn_fn(move || {
+                let (t, s) = here();
+                let _ = tx2.send((a, "child", t, s));
             });
             let tx3 = tx.clone();
-            System::current().arbiter().spawn_fn(move || {
-                let _ = tx3.send((a, "sysarb", thread::current().id(), System::try_current().map(|s| s.id())));
+            let r2 = System::current().arbiter().spawn_fn(move || {
+                let (t, s) = here();
+                let _ = tx3.send((a, "sysarb", t, s));
             });
+            if !(r1 && r2) {
+                sent_ok.store(false, Ordering::SeqCst);
+            }
         });
     }
+    {
+        // the system arbiter itself: a task on it, and a function it sends through `Arbiter::current()`
+        let tx = tx.clone();
+        let sent_ok = sent_ok.clone();
+        sys.arbiter().spawn(async move {
+            let (t, s) = here();
+            let _ = tx.send((SYS, "parent", t, s));
+            let tx2 = tx.clone();
+            let r = Arbiter::current().spawn_fn(move || {
+                let (t, s) = here();
+                let _ = tx2.send((SYS, "child", t, s));
+            });
+            if !r {
+                sent_ok.store(false, Ordering::SeqCst);
+            }
+        });
+    }
+    let want = 3 * narb + 2;
     let mut recs: Vec<Rec> = vec![];
     let t0 = Instant::now();
-    while recs.len() < 3 * narb && t0.elapsed() < Duration::from_secs(3) {
+    while recs.len() < want && t0.elapsed() < Duration::from_secs(3) {
         if let Ok(r) = rx.recv_timeout(Duration::from_millis(50)) {
             recs.push(r);
         }
     }
-    let mut ok = recs.len() == 3 * narb;
-    let mut why = if ok { String::new() } else { format!("only {} of {} probes ran", recs.len(), 3 * narb) };
+    let mut ok = true;
+    let mut why = String::new();
     let mut threads = vec![];
-    for a in 0..narb {
-        let get = |w: &str| recs.iter().find(|r| r.0 == a && r.1 == w).cloned();
-        if let (Some(p), Some(c), Some(s)) = (get("parent"), get("child"), get("sysarb")) {
-            if p.2 != c.2 {
+    let get = |a: usize, w: &str| recs.iter().find(|r| r.0 == a && r.1 == w).cloned();
+    let name = |a: usize| if a == SYS { "the system arbiter".to_string() } else { format!("arbiter {a}") };
+    for a in (0..narb).chain([SYS]) {
+        let (p, c) = (get(a, "parent"), get(a, "child"));
+        let Some(p) = p else {
+            ok = false;
+            why = format!("a task sent to {} never ran", name(a));
+            continue;
+        };
+        match c {
+            None => {
                 ok = false;
-                why = format!("a function sent through Arbiter::current() on arbiter {a} ran on another thread");
+                why = format!("a function sent through Arbiter::current() from a task on {} never ran: Arbiter::current() is not that arbiter", name(a));
             }
-            if s.2 != sys_thread {
-                ok = false;
-                why = "a function sent through System::current().arbiter() did not run on the system thread".into();
+            Some(c) => {
+                if p.2 != c.2 {
+                    ok = false;
+                    why = format!("a function sent through Arbiter::current() on {} ran on another thread", name(a));
+                }
+                if c.3 != Some(sys_id) {
+                    ok = false;
+                    why = "System::current() differs from the arbiter's system".into();
+                }
             }
-            if p.2 == sys_thread || threads.contains(&p.2) {
-                ok = false;
-                why = format!("arbiter {a} shares its thread with the system or another arbiter");
-            }
-            if p.3 != Some(sys_id) || c.3 != Some(sys_id) || s.3 != Some(sys_id) {
-                ok = false;
-                why = "System::current() differs from the arbiter's system".into();
-            }
-            threads.push(p.2);
         }
+        if p.3 != Some(sys_id) {
+            ok = false;
+            why = "System::current() differs from the arbiter's system".into();
+        }
+        if a == SYS {
+            if p.2 != sys_thread {
+                ok = false;
+                why = "a task sent to the system arbiter did not run on the system's thread".into();
+            }
+            continue;
+        }
+        match get(a, "sysarb") {
+            None => {
+                ok = false;
+                why = "a function sent through System::current().arbiter() never ran".into();
+            }
+            Some(s) => {
+                if s.2 != sys_thread {
+                    ok = false;
+                    why = "a function sent through System::current().arbiter() did not run on the system thread".into();
+                }
+                if s.3 != Some(sys_id) {
+                    ok = false;
+                    why = "System::current() differs from the arbiter's system".into();
+                }
+            }
+        }
+        if p.2 == sys_thread || threads.contains(&p.2) {
+            ok = false;
+            why = format!("arbiter {a} shares its thread with the system or another arbiter");
+        }
+        threads.push(p.2);
+    }
+    if !sent_ok.load(Ordering::SeqCst) {
+        ok = false;
+        why = format!("Arbiter::current().spawn_fn / System::current().arbiter().spawn_fn returned false inside a task of a live arbiter{}", if why.is_empty() { String::new() } else { format!(" ({why})") });
     }
     for a in &arbs {
         a.stop();
@@ -955,7 +1251,16 @@ fn exec_ident(sc: &Scenario) -> Out {
     if j != narb {
         t3.push(("C10".into(), "join after stop did not return".into()));
     }
-    Out { log: String::new(), verdict: format!("ident={} n={narb} joins={j}/{narb}", if ok { "ok" } else { "bad" }), t3 }
+    let host = match sc.host {
+        None => "0".to_string(),
+        Some((n, keep)) => format!("{n}{}", if keep { "k" } else { "d" }),
+    };
+    Out { log: String::new(), verdict: format!("ident={} n={narb} host={host} joins={j}/{narb}", if ok { "ok" } else { "bad" }), t3 }
+}
+
+fn new_system() -> actix_rt::SystemRunner {
+    let _l = ID_LOCK.read().unwrap_or_else(|e| e.into_inner());
+    System::new()
 }
 
 /// `blockon <variant> <pends> <value>`
@@ -968,11 +1273,11 @@ fn exec_blockon(variant: &str, pends: usize, value: i32) -> Result<String, Strin
                 YieldN(pends).await;
                 value
             }),
-            "sys" => System::new().block_on(async move {
+            "sys" => new_system().block_on(async move {
                 YieldN(pends).await;
                 value
             }),
-            _ => System::new().block_on(async move {
+            _ => new_system().block_on(async move {
                 let h = actix_rt::spawn(async move {
                     YieldN(pends).await;
                     value
@@ -1032,13 +1337,24 @@ fn feed(sc: &mut Scenario, ws: &[&str]) -> LineRes {
                 "dropped" => Kind::Dropped,
                 "running" => Kind::Running,
                 "busy" => Kind::Busy,
+                "done" => Kind::Done,
                 _ => return bad(),
             };
-            if sc.kinds.len() >= 3 || !sc.stops.is_empty() {
+            if sc.kinds.len() >= 3 || !sc.stops.is_empty() || sc.align.is_some() {
                 return bad();
             }
             sc.kinds.push(kind);
             LineRes::Plain(format!("ok a{}", sc.kinds.len() - 1))
+        }
+        (9, ["align", k]) => {
+            // after the `arb` lines, before the stops, once
+            match parse_nat(k) {
+                Some(k) if k < sc.kinds.len() && sc.stops.is_empty() && sc.align.is_none() => {
+                    sc.align = Some(k);
+                    LineRes::Plain("ok".into())
+                }
+                _ => bad(),
+            }
         }
         (9, ["stop", o, c, rest @ ..]) => {
             let origin = match *o {
@@ -1046,7 +1362,7 @@ fn feed(sc: &mut Scenario, ws: &[&str]) -> LineRes {
                 "sys-task" => Origin::SysTask,
                 "foreign" => Origin::Foreign,
                 _ => match parse_prefixed(o, "arb:") {
-                    Some(k) if k < sc.kinds.len() && sc.kinds[k] != Kind::Early => Origin::Arb(k),
+                    Some(k) if k < sc.kinds.len() && sc.kinds[k] != Kind::Early && sc.kinds[k] != Kind::Done => Origin::Arb(k),
                     _ => return bad(),
                 },
             };
@@ -1079,41 +1395,97 @@ fn feed(sc: &mut Scenario, ws: &[&str]) -> LineRes {
             sc.done = true;
             LineRes::GoC09 { mode_run, j: j as u64, head: format!("{m} j={j}") }
         }
+        (10, ["host", n, mode]) => {
+            let keep = match *mode {
+                "kept" => true,
+                "dropped" => false,
+                _ => return bad(),
+            };
+            match parse_nat(n) {
+                Some(n) if (1..=3).contains(&n) && sc.host.is_none() && sc.narb == 0 && sc.nlines == 0 => {
+                    sc.host = Some((n, keep));
+                    LineRes::Plain("ok".into())
+                }
+                _ => bad(),
+            }
+        }
         (10, ["arb"]) => {
-            if sc.narb >= 2 || !sc.cmds.is_empty() {
+            if sc.narb - sc.sys_idx.map_or(0, |_| 1) >= 2 || sc.nlines > 0 {
                 return bad();
             }
             sc.narb += 1;
             sc.stopped.push(false);
             LineRes::Plain(format!("ok a{}", sc.narb - 1))
         }
+        (10, ["sysarb"]) => {
+            if sc.sys_idx.is_some() || sc.nlines > 0 {
+                return bad();
+            }
+            sc.sys_idx = Some(sc.narb);
+            sc.narb += 1;
+            sc.stopped.push(false);
+            LineRes::Plain(format!("ok a{}", sc.narb - 1))
+        }
         (10, ["spawn", a, via, kind]) => {
             let (Some(a), Some(via), Some(kind)) = (parse_nat(a), parse_via(via), parse_kind(kind)) else { return bad() };
-            if a >= sc.narb || sc.cmds.len() >= 24 {
+            if a >= sc.narb || sc.nlines >= MAX_LINES || sc.ntask >= MAX_TASKS {
                 return bad();
             }
             let task = sc.ntask;
             sc.ntask += 1;
+            sc.nlines += 1;
             sc.task_arb.push(a);
-            sc.cmds.push(Cmd10::Spawn { arb: a, via, kind, task });
+            sc.task_gate.push(if kind == TaskKind::Gate { Some(false) } else { None });
+            sc.cmds.push(Cmd10::Spawn { arb: a, via, kind, task, burst: false });
             LineRes::Plain(format!("ok t{task}"))
+        }
+        (10, ["spawnn", a, via, kind, n]) => {
+            let (Some(a), Some(via), Some(kind), Some(n)) = (parse_nat(a), parse_via(via), parse_kind(kind), parse_nat(n)) else { return bad() };
+            if a >= sc.narb || sc.nlines >= MAX_LINES || !(2..=300).contains(&n) || sc.ntask + n > MAX_TASKS || kind == TaskKind::Gate {
+                return bad();
+            }
+            sc.nlines += 1;
+            let first = sc.ntask;
+            for i in 0..n {
+                let task = sc.ntask;
+                sc.ntask += 1;
+                sc.task_arb.push(a);
+                sc.task_gate.push(None);
+                sc.cmds.push(Cmd10::Spawn { arb: a, via, kind, task, burst: i > 0 });
+            }
+            LineRes::Plain(format!("ok t{first}..t{}", sc.ntask - 1))
         }
         (10, ["stop", a, via]) => {
             let (Some(a), Some(via)) = (parse_nat(a), parse_via(via)) else { return bad() };
-            if a >= sc.narb || sc.cmds.len() >= 24 {
+            if a >= sc.narb || sc.nlines >= MAX_LINES {
                 return bad();
             }
+            sc.nlines += 1;
             sc.stopped[a] = true;
             sc.cmds.push(Cmd10::Stop { arb: a, via });
             LineRes::Plain("ok".into())
         }
         (10, ["wait", t]) => {
             let Some(t) = parse_prefixed(t, "t") else { return bad() };
-            // only for a task with no stop ahead of it on its arbiter
-            if t >= sc.ntask || sc.stopped[sc.task_arb[t]] || sc.cmds.len() >= 24 {
+            // only for a task with no stop ahead of it on its arbiter and no closed gate in front of it
+            if t >= sc.ntask || sc.stopped[sc.task_arb[t]] || sc.nlines >= MAX_LINES {
                 return bad();
             }
+            if (0..t).any(|g| sc.task_arb[g] == sc.task_arb[t] && sc.task_gate[g] == Some(false)) {
+                return bad();
+            }
+            sc.nlines += 1;
             sc.cmds.push(Cmd10::Wait { task: t });
+            LineRes::Plain("ok".into())
+        }
+        (10, ["open", t]) => {
+            let Some(t) = parse_prefixed(t, "t") else { return bad() };
+            if t >= sc.ntask || sc.task_gate[t] != Some(false) || sc.nlines >= MAX_LINES {
+                return bad();
+            }
+            sc.nlines += 1;
+            sc.task_gate[t] = Some(true);
+            sc.cmds.push(Cmd10::Open { task: t });
             LineRes::Plain("ok".into())
         }
         (10, ["go", j]) => {
@@ -1125,7 +1497,8 @@ fn feed(sc: &mut Scenario, ws: &[&str]) -> LineRes {
             LineRes::GoC10 { j: j as u64, head: format!("j={j}") }
         }
         (10, ["ident"]) => {
-            if sc.narb == 0 || !sc.cmds.is_empty() {
+            // the system arbiter is always probed; `arb` lines add `Arbiter::new` arbiters
+            if sc.sys_idx.is_some() || sc.nlines > 0 {
                 return bad();
             }
             sc.done = true;
@@ -1161,6 +1534,7 @@ fn parse_kind(s: &str) -> Option<TaskKind> {
         "panic" => TaskKind::Panic,
         "fnpanic" => TaskKind::FnPanic,
         "block" => TaskKind::Block,
+        "gate" => TaskKind::Gate,
         _ => return None,
     })
 }
@@ -1227,11 +1601,23 @@ fn run(a: &Args) {
     let cases = Arc::new(cases);
     let next = Arc::new(AtomicUsize::new(0));
     let results: Arc<Mutex<HashMap<usize, CaseOut>>> = Arc::new(Mutex::new(HashMap::new()));
-    let workers: usize = std::env::var("VERIF_RT_WORKERS").ok().and_then(|s| s.parse().ok()).unwrap_or(6);
+    let env_n = |k: &str, d: usize| std::env::var(k).ok().and_then(|s| s.parse().ok()).unwrap_or(d);
+    let workers = env_n("VERIF_RT_WORKERS", 6);
+    // A run against defective code spends a watchdog period on every hanging scenario.  Scenarios are
+    // started in input order; no new one is started once enough of them have failed their oracle
+    // (the orchestrator shrinks the first few only) or the time budget is used up.  The scenarios not
+    // run are left out of the output (and named in a note); on sound code neither limit is reached.
+    let max_fail = env_n("VERIF_RT_MAX_FAIL", 10);
+    let budget = Duration::from_secs(env_n("VERIF_RT_BUDGET_S", 420) as u64);
+    let t_start = Instant::now();
+    let failed = Arc::new(AtomicUsize::new(0));
     let mut ths = vec![];
     for _ in 0..workers.max(1) {
-        let (cases, next, results) = (cases.clone(), next.clone(), results.clone());
+        let (cases, next, results, failed) = (cases.clone(), next.clone(), results.clone(), failed.clone());
         ths.push(thread::spawn(move || loop {
+            if failed.load(Ordering::SeqCst) >= max_fail || t_start.elapsed() > budget {
+                break;
+            }
             let i = next.fetch_add(1, Ordering::SeqCst);
             if i >= cases.len() {
                 break;
@@ -1243,6 +1629,9 @@ fn run(a: &Args) {
                 lines: cases[i].iter().map(|l| (l.clone(), "harness-panic".to_string())).collect(),
                 t3: vec![],
             });
+            if !out.t3.is_empty() {
+                failed.fetch_add(1, Ordering::SeqCst);
+            }
             results.lock().unwrap().insert(i, out);
         }));
     }
@@ -1250,18 +1639,25 @@ fn run(a: &Args) {
         let _ = t.join();
     }
     let mut results = results.lock().unwrap();
+    let mut skipped = 0;
     for i in 0..n {
-        let out = results.remove(&i).unwrap();
-        let mut first = true;
+        let Some(out) = results.remove(&i) else {
+            skipped += 1;
+            continue;
+        };
         for (op, real) in &out.lines {
             rep.obs(op, real);
-            if first {
-                first = false;
-            }
         }
         for (p, m) in &out.t3 {
             rep.t3(p, m);
         }
+    }
+    if skipped > 0 {
+        rep.note(&format!(
+            "{skipped} of {n} scenarios not run: {} scenarios had failed their oracle / {:.0?} elapsed (limits {max_fail} / {budget:?})",
+            failed.load(Ordering::SeqCst),
+            t_start.elapsed()
+        ));
     }
     rep.finish();
     // leaked threads of hung scenarios must not keep the process alive
@@ -1272,12 +1668,15 @@ fn run(a: &Args) {
 // generators
 // -------------------------------------------------------------------------------------------------
 
-const KINDS9: [&str; 4] = ["early", "dropped", "running", "busy"];
+const KINDS9: [&str; 5] = ["early", "dropped", "running", "busy", "done"];
 
-fn write_c09(w: &mut dyn Write, name: &str, kinds: &[usize], stops: &[(String, i32, &str)], mode: &str, j: u64) {
+fn write_c09(w: &mut dyn Write, name: &str, kinds: &[usize], align: Option<usize>, stops: &[(String, i32, &str)], mode: &str, j: u64) {
     writeln!(w, "case {name} c09").unwrap();
     for k in kinds {
         writeln!(w, "arb {}", KINDS9[*k]).unwrap();
+    }
+    if let Some(k) = align {
+        writeln!(w, "align {k}").unwrap();
     }
     for (i, (o, c, m)) in stops.iter().enumerate() {
         if i == 0 {
@@ -1289,25 +1688,67 @@ fn write_c09(w: &mut dyn Write, name: &str, kinds: &[usize], stops: &[(String, i
     writeln!(w, "go {mode} j={j}").unwrap();
 }
 
+/// origins a stop can come from: the system thread before `run`, a task on it, a foreign thread, a
+/// task on an arbiter whose loop is running
 fn origins_for(kinds: &[usize]) -> Vec<String> {
     let mut v = vec!["sys-pre".to_string(), "sys-task".to_string(), "foreign".to_string()];
     for (k, kind) in kinds.iter().enumerate() {
-        if *kind != 0 {
+        if *kind != 0 && *kind != 4 {
             v.push(format!("arb:{k}"));
         }
     }
     v
 }
 
+/// Directed scenarios (both tiers, in front): arbiters that stopped — and were joined — before the
+/// stop while others live, with the process-wide counters shifted beforehand so that a live (or an
+/// already stopped) arbiter's number equals the system's id.
+fn directed_c09(w: &mut dyn Write, rng: &mut Rng, thorough: bool) {
+    const E: usize = 0;
+    const D: usize = 1;
+    const R: usize = 2;
+    const B: usize = 3;
+    const X: usize = 4; // done
+    let configs: [(&[usize], usize); 10] = [
+        (&[R, X], 0),
+        (&[X, R], 1),
+        (&[R, E], 0),
+        (&[B, X, R], 0),
+        (&[X, R, B], 2),
+        (&[D, X], 0),
+        (&[E, D, R], 1),
+        (&[R], 0),
+        (&[X, X, R], 2),
+        (&[X, R, R], 0),
+    ];
+    let mut n = 0;
+    for (ci, (kinds, k)) in configs.iter().enumerate() {
+        let origins = origins_for(kinds);
+        let picks: Vec<usize> = if thorough { (0..origins.len()).collect() } else { vec![ci % 3, (ci + 1 + rng.below(2)) % origins.len()] };
+        for oi in picks {
+            let code = *rng.pick(&[0, 3, 7, -1]);
+            let mut stops = vec![(origins[oi].clone(), code, "seq")];
+            if n % 3 == 2 {
+                stops.push(("foreign".to_string(), 9, if n % 2 == 0 { "seq" } else { "race" }));
+            }
+            let mode = if n % 2 == 0 { "code" } else { "run" };
+            write_c09(w, &format!("d{n}"), kinds, Some(*k), &stops, mode, rng.next() % 1_000_000);
+            n += 1;
+        }
+    }
+}
+
 fn gen_c09(a: &Args, w: &mut dyn Write) {
     let mut rng = Rng::new(a.seed ^ 0xC09);
+    directed_c09(w, &mut rng, a.tier == "thorough");
     if a.tier == "thorough" {
-        // the whole space: 0..3 arbiters × kinds × origin × code × 1–2 stops, 3 repetitions
+        // the whole space: 0..3 arbiters × kinds × origin × code × 1–2 stops, 3 repetitions (the first
+        // with the counters as they are, the others with an arbiter's number aligned to the system id)
         let mut n = 0;
         for rep in 0..3u64 {
             for na in 0..=3usize {
-                for kc in 0..4usize.pow(na as u32) {
-                    let kinds: Vec<usize> = (0..na).map(|i| (kc / 4usize.pow(i as u32)) % 4).collect();
+                for kc in 0..5usize.pow(na as u32) {
+                    let kinds: Vec<usize> = (0..na).map(|i| (kc / 5usize.pow(i as u32)) % 5).collect();
                     let origins = origins_for(&kinds);
                     for (oi, o) in origins.iter().enumerate() {
                         for code in [0, 7] {
@@ -1323,7 +1764,8 @@ fn gen_c09(a: &Args, w: &mut dyn Write) {
                                     }
                                 }
                                 let mode = if (n + rep as usize) % 2 == 0 { "code" } else { "run" };
-                                write_c09(w, &format!("x{n}"), &kinds, &stops, mode, rng.next() % 1_000_000);
+                                let align = if rep == 0 || na == 0 { None } else { Some((rep as usize + kc + oi) % na) };
+                                write_c09(w, &format!("x{n}"), &kinds, align, &stops, mode, rng.next() % 1_000_000);
                                 n += 1;
                             }
                         }
@@ -1334,7 +1776,7 @@ fn gen_c09(a: &Args, w: &mut dyn Write) {
     } else {
         for n in 0..72 {
             let na = [0, 1, 2, 2, 3, 3][rng.below(6)];
-            let kinds: Vec<usize> = (0..na).map(|_| rng.below(4)).collect();
+            let kinds: Vec<usize> = (0..na).map(|_| rng.below(5)).collect();
             let origins = origins_for(&kinds);
             let o = rng.pick(&origins).clone();
             let code = *rng.pick(&[0, 7, 7, -3, 255]);
@@ -1348,53 +1790,153 @@ fn gen_c09(a: &Args, w: &mut dyn Write) {
                 stops.push((o2, *rng.pick(&[0, 9, 1]), m));
             }
             let mode = if rng.chance(1, 2) { "code" } else { "run" };
-            write_c09(w, &format!("q{n}"), &kinds, &stops, mode, rng.next() % 1_000_000);
+            let align = if na > 0 && rng.chance(1, 3) { Some(rng.below(na)) } else { None };
+            write_c09(w, &format!("q{n}"), &kinds, align, &stops, mode, rng.next() % 1_000_000);
         }
     }
     // malformed / not applicable: answered `bad-op` identically by both sides
     writeln!(w, "case bad1 c09\narb early\nstop arb:0 7\nstop arb:3 7\narb idle\ngo code j=1\nstop sys-pre x\nstop sys-task 1\nstop sys-pre 2 seq\nstop sys-pre 2 race\nstop foreign 3\narb running\ngo walk j=1\ngo code j=5\ngo code j=6").unwrap();
     writeln!(w, "case bad2 c09\narb running\narb running\narb running\narb running\nspawn 0 own fn\ngo code").unwrap();
     writeln!(w, "case bad3\narb running\nstop sys-pre 0\ngo code j=0").unwrap();
+    writeln!(w, "case bad4 c09\nalign 0\narb done\nalign 1\nalign x\nalign 0\nalign 0\narb running\nstop arb:0 1\nstop foreign 1\nalign 0\ngo code j=2").unwrap();
 }
 
 const KINDS10: [&str; 8] = ["fn", "fut", "pend", "yield", "sleep", "panic", "fnpanic", "block"];
 const VIAS: [&str; 3] = ["own", "h1", "h2"];
 
+/// Directed C10 scenarios (both tiers, in front).
+fn directed_c10(w: &mut dyn Write, rng: &mut Rng, n: &mut usize, thorough: bool) {
+    let mut case = |w: &mut dyn Write, lines: &[String], rng: &mut Rng| {
+        writeln!(w, "case d{} c10", *n).unwrap();
+        *n += 1;
+        for l in lines {
+            writeln!(w, "{l}").unwrap();
+        }
+        if lines.last().map(|l| l.as_str()) != Some("ident") {
+            writeln!(w, "go j={}", rng.next() % 1_000_000).unwrap();
+        }
+    };
+    let s = |x: &str| x.to_string();
+    // (1) the system arbiter as a target
+    case(w, &[s("sysarb"), s("spawn 0 own fn"), s("wait t0"), s("stop 0 own")], rng);
+    case(w, &[s("sysarb"), s("spawn 0 h1 fut"), s("spawn 0 own pend"), s("wait t1"), s("stop 0 h2"), s("spawn 0 own fn")], rng);
+    // (2) a batch with a stop in it, found in one go by the system arbiter's loop
+    for (pre, post) in [(0usize, 1usize), (1, 1), (2, 3)] {
+        let mut l = vec![s("sysarb"), s("spawn 0 own gate"), s("wait t0")];
+        for i in 0..pre {
+            l.push(format!("spawn 0 {} {}", VIAS[(i + post) % 3], ["fn", "pend", "fut"][i % 3]));
+        }
+        l.push(format!("stop 0 {}", VIAS[pre % 3]));
+        for i in 0..post {
+            l.push(format!("spawn 0 {} {}", VIAS[i % 3], ["fn", "fut", "yield"][i % 3]));
+        }
+        l.push(s("open t0"));
+        case(w, &l, rng);
+    }
+    // … with another arbiter alongside
+    case(w, &[s("arb"), s("sysarb"), s("spawn 1 own gate"), s("spawn 0 own fn"), s("wait t1"), s("spawn 1 h1 fn"), s("stop 1 own"), s("spawn 1 own fn"), s("stop 0 h1"), s("open t0")], rng);
+    // (3) long backlogs behind a held thread: k executes, the stop, m executes — found in one go
+    // (tokio hands out at most 128 messages per poll, then the LocalSet runs a batch of tasks)
+    let sizes: &[(usize, usize)] = if thorough { &[(0, 130), (1, 128), (5, 200), (30, 120), (60, 300), (100, 60), (130, 40), (200, 200)] } else { &[(5, 200), (30, 120), (100, 60)] };
+    for (i, (k, m)) in sizes.iter().enumerate() {
+        for tgt in ["arb", "sysarb"] {
+            if tgt == "sysarb" && !thorough && i > 0 {
+                continue;
+            }
+            let mut l = vec![s(tgt), s("spawn 0 own gate"), s("wait t0")];
+            match k {
+                0 => {}
+                1 => l.push(s("spawn 0 own fn")),
+                _ => l.push(format!("spawnn 0 {} fn {k}", VIAS[i % 3])),
+            }
+            l.push(format!("stop 0 {}", VIAS[(i + 1) % 3]));
+            l.push(format!("spawnn 0 {} {} {m}", VIAS[(i + 2) % 3], ["fn", "fut"][i % 2]));
+            l.push(s("open t0"));
+            case(w, &l, rng);
+        }
+    }
+    // (4) long queues racing the loop (nothing held)
+    case(w, &[s("arb"), s("spawnn 0 own fn 250"), s("stop 0 h1"), s("spawnn 0 own fut 100")], rng);
+    case(w, &[s("arb"), s("spawn 0 own block"), s("spawnn 0 h2 fn 150"), s("stop 0 own"), s("spawnn 0 own fn 150")], rng);
+    case(w, &[s("sysarb"), s("spawn 0 own block"), s("spawnn 0 own fn 140"), s("stop 0 own"), s("spawnn 0 h1 fn 60")], rng);
+    // (5) the 2nd, 3rd, 4th System an OS thread hosts
+    for nh in 1..=3usize {
+        for mode in ["dropped", "kept"] {
+            let mut l = vec![format!("host {nh} {mode}")];
+            for _ in 0..(nh % 3) {
+                l.push(s("arb"));
+            }
+            l.push(s("ident"));
+            case(w, &l, rng);
+            if thorough || nh == 1 {
+                case(w, &[format!("host {nh} {mode}"), s("sysarb"), s("arb"), s("spawn 0 own fn"), s("spawn 1 h1 fn"), s("wait t0"), s("wait t1"), s("stop 1 own"), s("spawn 0 h2 pend"), s("stop 0 own"), s("spawn 0 own fn")], rng);
+            }
+        }
+    }
+}
+
 fn gen_c10(a: &Args, w: &mut dyn Write) {
     let mut rng = Rng::new(a.seed ^ 0xC10);
     let thorough = a.tier == "thorough";
     let mut n = 0;
-    // (1) seeded random sequences over the full alphabet, 1–2 arbiters
+    directed_c10(w, &mut rng, &mut n, thorough);
+    // (1) seeded random sequences over the full alphabet: 1–2 arbiters and/or the system arbiter
     let count = if thorough { 800 } else { 90 };
     for _ in 0..count {
-        let narb = 1 + rng.below(2);
         writeln!(w, "case r{n} c10").unwrap();
         n += 1;
-        for _ in 0..narb {
-            writeln!(w, "arb").unwrap();
+        if rng.chance(1, 8) {
+            writeln!(w, "host {} {}", 1 + rng.below(3), if rng.chance(1, 2) { "kept" } else { "dropped" }).unwrap();
+        }
+        let with_sys = rng.chance(1, 3);
+        let nreal = if with_sys { rng.below(3) } else { 1 + rng.below(2) };
+        let narb = nreal + with_sys as usize;
+        let sys_pos = rng.below(narb.max(1));
+        for i in 0..narb {
+            writeln!(w, "{}", if with_sys && i == sys_pos { "sysarb" } else { "arb" }).unwrap();
         }
         let len = rng.range(1, 10);
         let mut stopped = vec![false; narb];
+        let mut held: Vec<Option<usize>> = vec![None; narb]; // closed gate on this target
         let mut tasks: Vec<usize> = vec![]; // task -> arb
         let style = [0, 0, 1, 2][rng.below(4)]; // 0: racing stops, 1: wait for the last task then stop, 2: mixed
+        if rng.chance(1, 4) {
+            // hold one target's thread: what follows piles up behind the gate
+            let arb = rng.below(narb);
+            writeln!(w, "spawn {arb} {} gate\nwait t0", VIAS[rng.below(3)]).unwrap();
+            tasks.push(arb);
+            held[arb] = Some(0);
+        }
         for _ in 0..len {
             let arb = rng.below(narb);
             let via = VIAS[rng.below(3)];
             if rng.chance(1, 5) && style != 1 {
                 writeln!(w, "stop {arb} {via}").unwrap();
                 stopped[arb] = true;
+            } else if rng.chance(1, 10) {
+                let cnt = if rng.chance(1, 4) { rng.range(128, 200) } else { rng.range(2, 40) };
+                if tasks.len() + cnt <= 380 {
+                    writeln!(w, "spawnn {arb} {via} {} {cnt}", KINDS10[rng.below(2)]).unwrap();
+                    tasks.extend(std::iter::repeat(arb).take(cnt));
+                }
             } else {
                 let kind = KINDS10[if rng.chance(1, 3) { rng.below(2) } else { rng.below(8) }];
                 writeln!(w, "spawn {arb} {via} {kind}").unwrap();
                 tasks.push(arb);
-                if style == 2 && rng.chance(1, 4) && !stopped[arb] {
+                if style == 2 && rng.chance(1, 4) && !stopped[arb] && held[arb].is_none() {
                     writeln!(w, "wait t{}", tasks.len() - 1).unwrap();
+                }
+            }
+            if let Some(a) = (0..narb).find(|a| held[*a].is_some()) {
+                if rng.chance(1, 6) {
+                    writeln!(w, "open t{}", held[a].unwrap()).unwrap();
+                    held[a] = None;
                 }
             }
         }
         for arb in 0..narb {
             if !stopped[arb] {
-                if style != 0 {
+                if style != 0 && held[arb].is_none() {
                     if let Some(t) = tasks.iter().rposition(|x| *x == arb) {
                         writeln!(w, "wait t{t}").unwrap();
                     }
@@ -1407,16 +1949,27 @@ fn gen_c10(a: &Args, w: &mut dyn Write) {
             let arb = rng.below(narb);
             writeln!(w, "spawn {arb} {} fn", VIAS[rng.below(3)]).unwrap();
         }
+        if let Some(a) = (0..narb).find(|a| held[*a].is_some()) {
+            if rng.chance(1, 2) {
+                writeln!(w, "open t{}", held[a].unwrap()).unwrap();
+            }
+        }
         writeln!(w, "go j={}", rng.next() % 1_000_000).unwrap();
     }
-    // (2) thorough: every sequence of length ≤ 5 over a 5-letter alphabet, 3 repetitions
+    // (2) thorough: every sequence of length ≤ 5 over a 5-letter alphabet on an `Arbiter::new` arbiter
+    // (3 repetitions) and of length ≤ 4 on the system arbiter behind a gate (one batch)
     if thorough {
         let alpha = ["spawn 0 own fn", "spawn 0 h1 pend", "spawn 0 h2 block", "stop 0 own", "stop 0 h1"];
-        for _rep in 0..3 {
-            for len in 1..=5usize {
+        for rep in 0..4 {
+            let sysrep = rep == 3;
+            for len in 1..=(if sysrep { 4usize } else { 5 }) {
                 for code in 0..5usize.pow(len as u32) {
                     let seq: Vec<usize> = (0..len).map(|i| (code / 5usize.pow(i as u32)) % 5).collect();
-                    writeln!(w, "case e{n} c10\narb").unwrap();
+                    if sysrep {
+                        writeln!(w, "case e{n} c10\nsysarb\nspawn 0 own gate\nwait t0").unwrap();
+                    } else {
+                        writeln!(w, "case e{n} c10\narb").unwrap();
+                    }
                     n += 1;
                     for s in &seq {
                         writeln!(w, "{}", alpha[*s]).unwrap();
@@ -1424,13 +1977,16 @@ fn gen_c10(a: &Args, w: &mut dyn Write) {
                     if !seq.iter().any(|s| *s >= 3) {
                         writeln!(w, "stop 0 own").unwrap();
                     }
+                    if sysrep {
+                        writeln!(w, "open t0").unwrap();
+                    }
                     writeln!(w, "go j={}", rng.next() % 1_000_000).unwrap();
                 }
             }
         }
     }
     // (3) identity and block_on
-    for narb in 1..=2 {
+    for narb in 0..=2 {
         writeln!(w, "case ident{narb} c10").unwrap();
         for _ in 0..narb {
             writeln!(w, "arb").unwrap();
@@ -1446,6 +2002,8 @@ fn gen_c10(a: &Args, w: &mut dyn Write) {
     // malformed
     writeln!(w, "case bad1 c10\nspawn 0 own fn\narb\narb\narb\nspawn 2 own fn\nspawn 0 me fn\nspawn 0 own gn\nwait t0\nspawn 0 own fn\nstop 0 own\nwait t0\nwait t1\ngo j=1\nstop 1 h1\nblockon rt 1 x\nblockon tr 1 1\narb\ngo\ngo j=3\ngo j=4").unwrap();
     writeln!(w, "case bad2 c10\narb\nspawn 0 own fn\nident\narb early\nstop sys-pre 1").unwrap();
+    writeln!(w, "case bad3 c10\nhost 0 kept\nhost 4 kept\nhost 1 gone\nhost 2 kept\nhost 1 dropped\nsysarb\nsysarb\narb\narb\narb\nident\nspawn 1 own gate\nspawn 1 own fn\nwait t1\nwait t0\nopen t1\nopen t0\nopen t0\nwait t1\nspawnn 1 own fn 1\nspawnn 1 own fn 301\nspawnn 1 own gate 5\nspawnn 1 h1 fn 3\nspawnn 0 own fut 300\nspawnn 0 own fut 100\nstop 0 own\nstop 1 own\ngo j=9\nstop 2 h2\ngo j=9").unwrap();
+    writeln!(w, "case bad4 c10\narb\nhost 1 kept\nspawn 0 own fn\nsysarb\nstop 0 own\ngo j=1").unwrap();
 }
 
 fn gen(a: &Args) {
